@@ -126,6 +126,7 @@ type State struct {
 	HavocEpoch int
 	nBranches int
 	Trace []string
+	calledClosure *Closure // the closure value being called against its contract (its captured variables are nameable)
 	dynFnValue Term // the function value of the dynamic call being bound to a contract (`fn` in a funcspec)
 	ghostExtra map[string]TV // extra names visible to ghost statements (results at a return anchor)
 }
